@@ -62,6 +62,9 @@ func (w *vWorld) checkEvents(got []*proto.Event, from int, s uint64, prefix stri
 func VerifC05Watch() {
 	w := vNewWorld(zzverif.Param("keys", 2))
 	w.history()
+	if zzverif.Param("newleader", 0) == 1 && zzverif.Choose("newLeader", 2) == 1 {
+		w.newLeader() // the watch is served by a node that has just taken over
+	}
 	s := zzverif.U64("S")
 	zzverif.Assume(s <= w.dealt+3)
 	prefix := vWatchPrefixes[zzverif.Choose("prefix", len(vWatchPrefixes))]
